@@ -30,10 +30,13 @@ VecC == { [Base EXCEPT !.key = k, !.value = v] : k \in Strs(1), v \in Strs(N - 1
 RespVecs == VecA \cup VecB \cup VecC
 
 \* D: one SetCookie with every key x value; E: sequences over a small op menu
-HostileVals == { <<"a">>, <<"b", "=">>, <<"a", ";", " ", "b", "=", "a">>, <<" ">>, <<"\"", "a", "\"">> }
-Menu == { <<k, v>> : k \in { <<"a">>, <<"b">> }, v \in HostileVals }
+\* values: plain, with '=', smuggling attempt, blank, quoted, and one the server discards
+\* (unbalanced DQUOTE); keys: two names and the NAMELESS cookie
+HostileVals == { <<"a">>, <<"b", "=">>, <<"a", ";", " ", "b", "=", "a">>, <<" ">>, <<"\"", "a", "\"">>, <<"\"", "a">> }
+Menu == { <<k, v>> : k \in { <<"a">>, <<"b">>, <<>> }, v \in HostileVals }
 ND == IF N > 3 THEN 2 ELSE N - 1      \* key/value length bound of the single-call request vectors
-ReqVecs == { << <<k, v>> >> : k \in BStrs(ND), v \in BStrs(ND) } \cup SeqsFromTo(Menu, 2, 3)
+ReqVecs == { << <<k, v>> >> : k \in BStrs(ND), v \in BStrs(ND) } \cup SeqsFromTo(Menu, 2, IF N > 2 THEN 3 ELSE 2)
+           \cup { << <<k, v>>, m >> : k \in { <<"a">>, <<>> }, v \in { <<"a">>, <<"\"", "a">> }, m \in Menu }
 
 RECURSIVE Str(_)
 Str(s) == IF s = <<>> THEN "" ELSE s[1] \o Str(Tail(s))
@@ -49,7 +52,8 @@ RespRec(c) ==
     refReject |-> r.reject ]
 ReqRec(ops) ==
   [ t |-> "req", ops |-> [i \in 1..Len(ops) |-> <<Str(ops[i][1]), Str(ops[i][2])>>],
-    jar |-> Pairs(JarOf(ops, <<>>)), octets |-> ReqOctets(ops), ref |-> Pairs(ReqSeen(ops)) ]
+    jar |-> Pairs(JarOf(ops, <<>>)), octets |-> ReqOctets(ops), oct |-> Pairs(OctetJar(JarOf(ops, <<>>))),
+    ref |-> Pairs(ReqSeen(ops)) ]
 
 ASSUME ndJsonSerialize("vectors.ndjson",
          SetToSeq({ RespRec(c) : c \in RespVecs }) \o SetToSeq({ ReqRec(o) : o \in ReqVecs }))
